@@ -203,6 +203,39 @@ def ob_mass(et, face=0):
     return Verdict(DISCHARGED, backend="exact field arithmetic + exact rank", sub=n, detail=f"rank {r}")
 
 
+def ob_simu_mass(physics, et):
+    """Simulation level (native floats): consistent mass / capacity entries sum to rho (x c) x measure x thickness in 2-D."""
+    from EasyFEA import Models, Simulations
+    mesh = patches.two_element_mesh(et)
+    dim = mesh.dim
+    th = 1.3 if dim == 2 else 1.0
+    meas = {1: lambda: mesh.length, 2: lambda: mesh.area, 3: lambda: mesh.volume}[dim]()
+    rho = 2.5
+    if physics == "thermal":
+        simu = Simulations.Thermal(mesh, Models.Thermal(k=1.5, c=0.7, thickness=th))
+        simu.rho = rho
+        A = simu.Get_K_C_M_F()[1].toarray()
+        want = rho * 0.7 * meas * th
+        ncomp = 1
+    else:
+        simu = Simulations.Elastic(mesh, Models.Elastic.Isotropic(dim, E=3.0, v=0.25, planeStress=True, thickness=th))
+        simu.rho = rho
+        A = simu.Get_K_C_M_F()[2].toarray()
+        want = rho * meas * th * dim      # per direction, dim directions
+        ncomp = dim
+    tot = float(A.sum())
+    ev = np.linalg.eigvalsh((A + A.T) / 2)
+    rec = dict(total=tot, expected=want, min_eig=float(ev.min()), thickness=th, measure=float(meas))
+    if abs(tot - want) > 1e-10 * abs(want):
+        raise Refuted(f"{physics} simulation on {et}: mass/capacity entries sum to {tot:.6g}, expected rho*measure*thickness = {want:.6g}",
+                      cex=dict(elemType=et, thickness=th), signature=f"simu_mass:{physics}:{'2d' if dim == 2 else str(dim)+'d'}",
+                      replay=dict(confirmed=True, **rec))
+    if ev.min() <= 0:
+        raise Refuted(f"{physics} simulation on {et}: mass matrix not positive definite (min eig {ev.min():.3e})", signature=f"simu_mass:{physics}:spd:{et}",
+                      replay=dict(confirmed=True, **rec))
+    return Verdict(DISCHARGED, backend="native float run of the real simulation (1e-10)", detail=str(rec))
+
+
 ELASTIC_QUICK = ["TRI3", "TRI6", "QUAD4", "QUAD8", "TETRA4", "HEXA8", "PRISM6"]
 ELASTIC_THOROUGH = ["TRI10", "TRI15", "QUAD9", "TETRA10", "PRISM15", "PRISM18", "HEXA20", "HEXA27"]
 HEAVY = {"HEXA20", "HEXA27", "PRISM18"}
@@ -237,6 +270,14 @@ def build(tier, seed):
                       clause="K_e symmetric; rigid-body modes in the kernel (exact)", timeout=2400))
         obs.append(Ob(f"C02.K.rank.{et}.elastic", ob_rank, (et, "elastic"), "B", fk, bound=bound,
                       clause="rank of the assembled stiffness == ndof - #rigid modes", timeout=2400))
+    # both shared-face kinds of the prism family for elasticity (a single layer of PRISM15 had 2 spurious modes with the 6-point rule)
+    for et in (["PRISM6", "PRISM15"] if tier == "quick" else ["PRISM6", "PRISM15", "PRISM18"]):
+        obs.append(Ob(f"C02.K.rank.{et}.elastic.face1", ob_rank, (et, "elastic", 1), "B", fk, bound=bound + " (quadrangular shared face: single layer)",
+                      clause="rank of the assembled stiffness == ndof - 6", timeout=2400))
+    for physics, et in (("thermal", "SEG2"), ("thermal", "TRI3"), ("thermal", "QUAD8"), ("thermal", "TETRA4"), ("elastic", "TRI3"), ("elastic", "QUAD4"), ("elastic", "HEXA8")):
+        obs.append(Ob(f"C02.simu.mass.{physics}.{et}", ob_simu_mass, (physics, et), "X", ("EasyFEA/Simulations/_thermal.py::Thermal.Construct_local_matrix_system",
+                      "EasyFEA/Simulations/_elastic.py::Elastic.Construct_local_matrix_system"), bound="2-element patch, one thickness/density value, floats",
+                      clause="assembled mass/capacity sums to rho x measure x thickness (2-D) per direction and is positive definite", timeout=120))
     from . import C14
     obs.append(Ob("C02.cache.transparent", C14.ob_cache_key, (), "B", ("EasyFEA/Utilities/_cache.py::cache_computed_values",),
                   bound="7 call spellings x all ordered pairs", clause="cached geometric factors (weighted Jacobians, B, N) are those the functions compute for the requested arguments"))
